@@ -116,10 +116,12 @@ package query
 //@   ensures (result1 != nil) == evalFails(scope, expr, old(evalEpoch))
 //@   ensures evalEpoch == old(evalEpoch) + 1
 //@   ensures result1 == nil ==> result0 != nil
+//@   modifies lastEval, evalEpoch
 //@   modifies * except F:query.View. E:query.Record# E:query.Cell# E:value.Primary# E:*query.SortValue# E:query.SortValues# F:query.SortValue. E:int# F:parser. F:value. F:query.ReferenceScope. F:query.Transaction. F:option.Flags. C: E:bool#
 //@ func EvalRowValue
 //@   trusted assumed frame of expression evaluation
 //@   ensures evalEpoch > old(evalEpoch)
+//@   modifies evalEpoch, lastEval
 //@   modifies * except F:query.View. E:query.Record# E:query.Cell# E:*query.SortValue# E:query.SortValues# F:query.SortValue. E:int# F:parser. F:value. F:query.ReferenceScope. F:query.Transaction. F:option.Flags. C: E:bool#
 
 // ---------------------------------------------------------------------------------------------
@@ -744,6 +746,7 @@ package query
 //@   trusted assumed ghost model of the sync.Map behind a block's cursors; Cursor.Fetch itself is verified (C16)
 //@   ensures !curDeclared(m, name.Literal) ==> result1 == errUndeclaredCursor && result0 == nil && cursorServedBy == old(cursorServedBy)
 //@   ensures curDeclared(m, name.Literal) ==> result1 != errUndeclaredCursor && cursorServedBy == m
+//@   modifies cursorServedBy
 //@   modifies * except F:query.ReferenceScope. E:query.BlockScope#
 
 //@ func (*ReferenceScope).FetchCursor
@@ -767,3 +770,36 @@ package query
 //@   ensures [same-transaction] result.Tx == rs.Tx && result.nodes == nil
 //@   loop 1 invariant 0 <= $i && $i <= len(rs.Blocks) && len(blocks) == len(rs.Blocks) + 1 && fresh(blocks) && forall(k, 0, $i, blocks[k + 1] == rs.Blocks[k])
 //@   loop 1 modifies blocks[*]
+
+// ---------------------------------------------------------------------------------------------
+// C01 / C10 / C11: COMMIT writes every new table image into its (truncated) update file first, and only then
+// starts swapping files; a failure before the first swap leaves every table file as it was.
+// Ghost protocol: readyForImage is the file that was truncated to 0 and positioned at its start; swapsStarted counts
+// Container.Commit calls (the file swaps).
+//@ ghost var truncatedFile *os.File
+//@ ghost var rewoundFile *os.File
+//@ ghost var swapsStarted int
+//@ ghost var imagesWritten int
+//@ func (*os.File).Truncate
+//@   trusted assumed (ftruncate); ghost: remembers the file emptied last
+//@   ensures result == nil && size == 0 ==> truncatedFile == f
+//@   modifies truncatedFile
+//@ func (*os.File).Seek
+//@   trusted assumed (lseek); ghost: remembers the file positioned at its start last
+//@   ensures result1 == nil && offset == 0 && whence == 0 ==> rewoundFile == f
+//@   modifies rewoundFile
+//@ func (*os.File).Write
+//@   trusted assumed (write appends at the file position)
+//@   modifies nothing
+//@ func EncodeView
+//@   trusted assumed: writes the encoded table through fp; the bytes written are the whole file only if fp is empty and positioned at its start, and no table file has been swapped yet
+//@   requires truncatedFile == fp && rewoundFile == fp
+//@   requires swapsStarted == 0
+//@   ensures imagesWritten == old(imagesWritten) + 1
+//@   modifies imagesWritten
+//@ func (*Transaction).Commit
+//@   property C01 C10 C11
+//@   requires tx != nil && swapsStarted == 0
+//@   loop 1 invariant swapsStarted == 0
+//@   loop 2 invariant swapsStarted == 0
+//@   modifies *
